@@ -45,11 +45,11 @@ func (t *tr) adopt(v *val, hint string) {
 // pure let-binds a compound pure value under the variable's name.
 func (t *tr) pure(v *val, name string) *val {
 	if isAtom(v.e) {
-		return &val{t: v.t, e: v.e, nat: v.nat, lit: v.lit}
+		return &val{t: v.t, e: v.e, nat: v.nat, lit: v.lit, lb: v.lb, cv: v.cv, hasCv: v.hasCv, trunc: v.trunc}
 	}
 	n := t.freshFor(name, name)
 	t.emit("let " + n + " := " + v.e + " in")
-	return &val{t: v.t, e: n, nat: v.nat}
+	return &val{t: v.t, e: n, nat: v.nat, lb: v.lb, cv: v.cv, hasCv: v.hasCv, trunc: v.trunc}
 }
 
 func (t *tr) storeVar(name string, v *val, define bool) {
@@ -73,6 +73,17 @@ func (t *tr) storeVar(name string, v *val, define bool) {
 		// struct VALUE assignment copies (the fields are shared pointers)
 		v = t.copyStruct(v, v.t)
 		v.o.hint = ""
+	}
+	if t.g.loops && v.c != nil && !v.isNil && (v.t.k == kList || v.t.k == kZList || v.t.k == kKeccak || (v.t.k == kSlice && v.c.slen == 0)) {
+		if had {
+			delete(t.env, name)
+		}
+		t.nameCell(v.c, name)
+		if had {
+			t.env[name] = old
+		}
+		t.setVar(name, v, define)
+		return
 	}
 	switch v.t.k {
 	case kZ, kFe, kStruct:
@@ -113,6 +124,13 @@ func (t *tr) storeVar(name string, v *val, define bool) {
 		}
 	case kBool, kInt, kZList, kByte:
 		t.setVar(name, t.pure(v, name), define)
+	case kList:
+		if v.isNil {
+			t.setVar(name, v, define)
+		} else {
+			p := t.pure(v, name)
+			t.setVar(name, p, define)
+		}
 	default:
 		t.fail("variable %s of type %s", name, v.t)
 	}
@@ -178,6 +196,16 @@ func (t *tr) assignStmt(s *ast.AssignStmt, rest []ast.Stmt, k func() string) (st
 		case *ast.TypeAssertExpr:
 			return t.typeAssert(s, rhs, rest, k), true
 		case *ast.CallExpr:
+			if t.g.loops {
+				if ie, ok := s.Lhs[0].(*ast.IndexExpr); ok && len(s.Lhs) == 1 && t.indexStore(ie, rhs) {
+					return "", false
+				}
+				if id, ok := rhs.Fun.(*ast.Ident); ok && id.Name == "append" && len(rhs.Args) > 0 && t.lookup("append") == nil {
+					if l := t.lookup(exprText(rhs.Args[0])); l != nil && intList(l.t) && (len(s.Lhs) != 1 || exprText(s.Lhs[0]) != exprText(rhs.Args[0])) {
+						t.fail("append(%s, ..) must be assigned back to %s", exprText(rhs.Args[0]), exprText(rhs.Args[0]))
+					}
+				}
+			}
 			r := t.call(rhs)
 			switch {
 			case r.pend != nil:
@@ -202,6 +230,9 @@ func (t *tr) assignStmt(s *ast.AssignStmt, rest []ast.Stmt, k func() string) (st
 	}
 	if len(s.Lhs) == 1 {
 		if ie, ok := s.Lhs[0].(*ast.IndexExpr); ok {
+			if t.g.loops && t.indexStore(ie, s.Rhs[0]) {
+				return "", false
+			}
 			t.indexAssign(ie, "=", s.Rhs[0])
 			return "", false
 		}
